@@ -156,6 +156,7 @@ void constructCommon(ModelSignature model,
     };
 
     auto load_complete = [&]()->void{ // loads any complete points, does nothing if getNumStored() is zero
+        TSG_VERIF_EVENT("pc_load", {(long long) complete.getNumStored(), (long long) grid.getNumLoaded()});
         if (complete.getNumStored() > 0)
             complete.load(grid);
     };
@@ -212,18 +213,26 @@ void constructCommon(ModelSignature model,
             while(my_flag == flag_computing){
                 model(x[thread_id], y[thread_id], thread_id); // does the model evaluations
 
+                TSG_VERIF_SCHED("pc:worker_before_done");
                 { // must guarantee sync between work_flag and count_done, use a lock
                     std::lock_guard<std::mutex> lock(access_count_done);
                     work_flag[thread_id] = flag_done;
                     count_done++;
+                    TSG_VERIF_EVENT("pc_worker_done", {(long long) thread_id, (long long) count_done});
                 }
+                TSG_VERIF_SCHED("pc:worker_before_notify");
+                TSG_VERIF_EVENT("pc_worker_notify", {(long long) thread_id});
                 until_someone_done.notify_one(); // just finished some work, notify the main thread
+                TSG_VERIF_SCHED("pc:worker_before_wait");
 
                 { // wait till the main thread gives us an new piece of work
                     std::unique_lock<std::mutex> lock(access_count_done);
-                    until_new_job.wait(lock, [&]()->bool{ return (work_flag[thread_id] != flag_done); });
+                    until_new_job.wait(lock, [&]()->bool{
+                        TSG_VERIF_EVENT("pc_worker_check", {(long long) thread_id, (long long) work_flag[thread_id]});
+                        return (work_flag[thread_id] != flag_done); });
                     my_flag = work_flag[thread_id];
                 }
+                TSG_VERIF_SCHED("pc:worker_after_wait");
             }
         };
 
@@ -235,10 +244,15 @@ void constructCommon(ModelSignature model,
                 total_num_launched += x[id].size() / num_dimensions;
                 set_initial_guess(x[id], y[id]);
                 work_flag[id] = flag_computing;
+                TSG_VERIF_EVENT("pc_launch", {(long long) id, (long long) work_flag[id], (long long) (size_t) x[id].data(), (long long) x[id].size(),
+                                              (long long) total_num_launched, (long long) manager.getNumRunning()});
                 workers[id] = std::thread(do_work, id);
             }else{
                 work_flag[id] = flag_shutdown; // not enough samples, cancel the thread
+                TSG_VERIF_EVENT("pc_launch", {(long long) id, (long long) work_flag[id], 0, 0,
+                                              (long long) total_num_launched, (long long) manager.getNumRunning()});
             }
+            TSG_VERIF_SCHED("pc:main_launch");
         }
 
         auto collect_finished = [&]()->bool{
@@ -252,6 +266,10 @@ void constructCommon(ModelSignature model,
                     }
                     if ((grid.getNumLoaded() < 1000) || (double(complete.getNumStored()) / double(grid.getNumLoaded()) > 0.2))
                         load_complete(); // move from complete into the grid
+                    TSG_VERIF_EVENT("pc_collect", {(long long) id, (long long) (size_t) x[id].data(), (long long) x[id].size(),
+                                                   (long long) (size_t) y[id].data(), (long long) y[id].size(),
+                                                   (long long) complete.getNumStored(), (long long) grid.getNumLoaded(),
+                                                   (long long) manager.getNumDone(), (long long) manager.getNumRunning()});
 
                     if (total_num_launched < max_num_points){
                         // refresh the candidates if enough of the current candidates have completed
@@ -270,27 +288,38 @@ void constructCommon(ModelSignature model,
                     }else{
                         work_flag[id] = flag_shutdown; // reached the budget, shutdown the thread
                     }
+                    TSG_VERIF_EVENT("pc_handout", {(long long) id, (long long) work_flag[id], (long long) (size_t) x[id].data(), (long long) x[id].size(),
+                                                   (long long) total_num_launched, (long long) manager.getNumRunning()});
                 }
             }
             return any_done;
         };
 
         while(manager.getNumRunning() > 0){ // main loop
+            TSG_VERIF_SCHED("pc:main_before_lock");
             {   // lock access to the count_done variable
                 std::unique_lock<std::mutex> lock(access_count_done);
                 // unlock and wait until some else increments the "done" count
-                until_someone_done.wait(lock, [&]()->bool{ return (count_done > 0); });
+                until_someone_done.wait(lock, [&]()->bool{
+                    TSG_VERIF_EVENT("pc_main_check", {(long long) count_done});
+                    return (count_done > 0); });
                 // the lock is back on at this point, process the completed samples, reset the count and go back to waiting
                 count_done = 0;
                 if (collect_finished()) checkpoint(); // if new samples were computed, save the state
+                TSG_VERIF_EVENT("pc_main_unlock", {(long long) count_done});
             } // unlock the access_count_done and notify that we have loaded new jobs
             // without the unlock, the threads will wake up but will not be able to read the worker flags
+            TSG_VERIF_SCHED("pc:main_before_notify");
+            TSG_VERIF_EVENT("pc_main_notify", {0});
             until_new_job.notify_all();
+            TSG_VERIF_SCHED("pc:main_after_notify");
         }
 
         load_complete(); // flush completed jobs
+        TSG_VERIF_EVENT("pc_flush", {(long long) complete.getNumStored(), (long long) grid.getNumLoaded()});
 
         for(auto &w : workers) if (w.joinable()) w.join(); // join all threads
+        TSG_VERIF_EVENT("pc_joined", {0});
 
     }else{
         std::vector<double> x(grid.getNumDimensions()), y( grid.getNumOutputs());
